@@ -9,6 +9,7 @@ import CBV.Lemmas.C06Geo
 import CBV.Lemmas.C06Num
 import CBV.Lemmas.C06Fmt
 import CBV.Lemmas.C06Repr
+import CBV.Lemmas.C06Lex
 import Mathlib.Data.String.Basic
 import CBV.Gen.TC06
 
@@ -54,6 +55,34 @@ def sampleDecl : Decl :=
 
 example : WFDecl sampleDecl := by
   refine ⟨?_, ?_, ?_, ?_, ?_, ?_⟩ <;> simp [sampleDecl, NoSemi, isSectionKey, Tree.isSemi]
+
+/-! ### text ↔ tokens -/
+
+/-- **T_C06_lex_unlex.** The tokenizer of the file text (`lexText`: blanks, `//` comments, `/* */`, punctuation, words) reads
+    back every text made of well-formed tokens (`Tok.wf`: a word is a non-empty run of non-blank, non-punctuation characters
+    that does not begin like a comment; a comment begins with `//`, stays on its line, has no trailing blank), each followed
+    by a blank or, after a comment, a line break. -/
+theorem T_C06_lex_unlex (toks : List Tok) (h : ∀ t ∈ toks, t.wf = true) : lexText (unlex toks) = toks :=
+  lexText_unlex toks h
+
+/-- **T_C06_text_faithful.** Hence comparing token lists is faithful to the text: two well-formed token lists with the same
+    text are the same list. -/
+theorem T_C06_text_faithful (a b : List Tok) (ha : ∀ t ∈ a, t.wf = true) (hb : ∀ t ∈ b, t.wf = true)
+    (h : unlex a = unlex b) : a = b := by
+  rw [← lexText_unlex a ha, ← lexText_unlex b hb, h]
+
+/-- **T_C06_text_roundtrip.** From the *text* back to the dictionary: for every well-formed dictionary whose rendering
+    consists of well-formed tokens, tokenizing and parsing the text of the rendering gives the dictionary. -/
+theorem T_C06_text_roundtrip (d : Dict) (h : WF d) (hw : ∀ t ∈ render d, t.wf = true) :
+    parse (lexText (unlex (render d))) = some d := by
+  rw [lexText_unlex _ hw]; exact parse_render d h
+
+/-- the hypotheses hold for an assembled declaration with settings, geometry, patches (all tokens of its rendering are
+    well-formed), and the tokenizer copes with layout and comments of a real file -/
+example : (render (assembleDecl sampleDecl)).all Tok.wf = true := by decide +kernel
+
+example : lexText "a /* x ( */ (b;// c  \n d//e /)".toList =
+    [.word "a", .lp, .word "b", .semi, .comment "// c", .word "d//e", .word "/", .rp] := by decide +kernel
 
 /-! ### what the assembled dictionary contains -/
 
